@@ -282,6 +282,61 @@ def numbering(ctx, py: PyRepo, fn: ast.FunctionDef, ci):
             if ok is None:
                 raise AnalysisError(f'_import_proof: cannot decide whether `{ast.unparse(it)}` is in database order ({why})')
             ctx.ob('hypothesis-order', 'numbering-loop', ok, why, where, facts={'source': ast.unparse(it)})
+        # which variables get a number: every variable of the statement has a mandatory `$f` hypothesis, so the set the hypotheses are
+        # selected with must be `<the statement>.get_metavariables()` - not a set handed in by the caller (e.g. only the pattern
+        # metavariables of the converted notation)
+        inner = inner_fn(sc, loop)
+        sel_scope = sc_it if sc_it is not sc else inner
+        def flowing(e, depth=0):
+            """the expressions that flow into the sequence: definitions and `+=` extensions of the locals it mentions"""
+            out = [e]
+            if depth > 3:
+                return out
+            for nm in {x.id for x in ast.walk(e) if isinstance(x, ast.Name)}:
+                for n_ in ast.walk(sel_scope):
+                    if isinstance(n_, (ast.Assign, ast.AnnAssign, ast.AugAssign)) and n_.value is not None:
+                        t_ = n_.targets[0] if isinstance(n_, ast.Assign) else n_.target
+                        if isinstance(t_, ast.Name) and t_.id == nm and isinstance(n_.value, (ast.ListComp, ast.GeneratorExp, ast.Call, ast.BinOp)):
+                            out.extend(flowing(n_.value, depth + 1))
+            return out
+        filt = []
+        for sel_expr in flowing(it):
+            for n_ in ast.walk(sel_expr):
+                if isinstance(n_, ast.comprehension):
+                    for c in n_.ifs:
+                        if isinstance(c, ast.Compare) and len(c.ops) == 1 and isinstance(c.ops[0], ast.In) \
+                                and ast.unparse(c.comparators[0]) not in [ast.unparse(x) for x in filt]:
+                            filt.append(c.comparators[0])
+        # a local that only names the set
+        resolved = []
+        for S in filt:
+            if isinstance(S, ast.Name):
+                d_ = [n_.value for g_ in (sel_scope, inner, fn) for n_ in ast.walk(g_) if isinstance(n_, (ast.Assign, ast.AnnAssign)) and n_.value is not None
+                      and isinstance(n_.targets[0] if isinstance(n_, ast.Assign) else n_.target, ast.Name)
+                      and (n_.targets[0] if isinstance(n_, ast.Assign) else n_.target).id == S.id]
+                if len({ast.unparse(x) for x in d_}) == 1:
+                    S = d_[0]
+            resolved.append(S)
+        filt = resolved
+        fparams = {a.arg for g_ in [fn, sel_scope, inner] for a in g_.args.posonlyargs + g_.args.args + g_.args.kwonlyargs}
+        for S in filt:
+            if isinstance(S, ast.Call) and isinstance(S.func, ast.Attribute) and S.func.attr == 'get_metavariables' and not S.args:
+                ctx.ob('hypothesis-order', 'variables-of-the-statement', isinstance(S.func.value, ast.Name) and S.func.value.id in fparams,
+                       f'the mandatory hypotheses are selected with `{ast.unparse(S)}`, which is not the set of variables of the statement '
+                       f'being imported', where)
+            elif isinstance(S, ast.Call) and not (isinstance(S.func, ast.Attribute) and S.func.attr == 'get_metavariables'):
+                ctx.ob('hypothesis-order', 'variables-of-the-statement', False,
+                       f'the mandatory hypotheses are selected with `{ast.unparse(S)[:60]}`, which is not the set of variables of the statement '
+                       f'being imported (<statement>.get_metavariables())', where)
+            elif isinstance(S, ast.Name) and S.id in fparams and S.id != 'self':
+                defs_ = [n_ for g_ in {fn, sel_scope, inner} for n_ in ast.walk(g_) if isinstance(n_, (ast.Assign, ast.AnnAssign))
+                         and isinstance(n_.targets[0] if isinstance(n_, ast.Assign) else n_.target, ast.Name)
+                         and (n_.targets[0] if isinstance(n_, ast.Assign) else n_.target).id == S.id]
+                if not defs_:
+                    ctx.ob('hypothesis-order', 'variables-of-the-statement', False,
+                           f'the mandatory hypotheses are selected with the parameter `{S.id}`: every variable of the statement has a mandatory '
+                           f'`$f` hypothesis, the set must be <statement>.get_metavariables(), not what the caller thinks the variables are '
+                           f'(a set that leaves out element / set variables shifts every later number)', where)
         # the index is a counter that starts at 1 and is incremented once per hypothesis
         idx = st.targets[0].slice if kind == 'loop' else loop.key
         ok_idx = isinstance(idx, ast.Name)
@@ -576,6 +631,13 @@ def database_ordered(fn: ast.FunctionDef, it):
 
     if leading_ordered(it):
         return True, ''
+    if isinstance(it, ast.Attribute) and isinstance(it.value, ast.Name) and it.value.id == 'self':
+        # another collection of the converter (the `$v` declarations, the notation table ..): its order is the order in which ITS
+        # entries were made, not the order of the `$f` statements
+        return False, (f'the hypotheses are numbered in the order of `self.{it.attr}`; the Metamath specification numbers mandatory '
+                       f'hypotheses in the order of their `$f` statements (self.{ORDERED_ATTR})')
+    if isinstance(it, (ast.ListComp, ast.GeneratorExp)) and len(it.generators) == 1:
+        return database_ordered(fn, it.generators[0].iter)
     if isinstance(it, ast.BinOp) and isinstance(it.op, ast.Add):
         return database_ordered(fn, it.left)          # a concatenation starts with its left operand
     if isinstance(it, ast.Call) and isinstance(it.func, ast.Name) and it.func.id == 'sorted':
@@ -586,10 +648,26 @@ def database_ordered(fn: ast.FunctionDef, it):
         for node in ast.walk(fn):
             if isinstance(node, ast.Assign) and isinstance(node.targets[0], ast.Name) and node.targets[0].id == it.id:
                 defs.append(node.value)
+            elif isinstance(node, ast.AnnAssign) and isinstance(node.target, ast.Name) and node.target.id == it.id and node.value is not None:
+                defs.append(node.value)
         if len(defs) >= 1 and leading_ordered(defs[0]):
             return True, ''
         if len(defs) == 1 and isinstance(defs[0], ast.Call) and isinstance(defs[0].func, ast.Name) and defs[0].func.id == 'sorted':
             return False, 'the hypotheses are numbered in sorted (alphabetical) order instead of database order'
+        if len(defs) == 1 and isinstance(defs[0], ast.List) and not defs[0].elts:
+            # a list filled by `<name>.append(<loop variable>)`: its order is the order of the loop's sequence
+            fills = [lp for lp in ast.walk(fn) if isinstance(lp, ast.For) and isinstance(lp.target, ast.Name) and any(
+                isinstance(c, ast.Call) and isinstance(c.func, ast.Attribute) and c.func.attr == 'append' and isinstance(c.func.value, ast.Name)
+                and c.func.value.id == it.id and len(c.args) == 1 and isinstance(c.args[0], ast.Name) and c.args[0].id == lp.target.id
+                for c in ast.walk(lp))]
+            others = [c for c in ast.walk(fn) if isinstance(c, ast.Call) and isinstance(c.func, ast.Attribute) and isinstance(c.func.value, ast.Name)
+                      and c.func.value.id == it.id and c.func.attr in ('append', 'extend', 'insert', 'sort', 'reverse', 'remove', 'pop')]
+            if len(fills) == 1 and len(others) == 1:
+                return database_ordered(fn, fills[0].iter)
+        if defs and not isinstance(defs[0], ast.Name):
+            sub = database_ordered(fn, defs[0])          # the first definition leads the sequence (later `+=` parts follow it)
+            if sub[0] is not None:
+                return sub
         return None, f'`{it.id}` is bound to {[ast.unparse(d)[:50] for d in defs]}'
     return None, 'unrecognised source expression'
 
